@@ -250,8 +250,8 @@ def narrow_threshold_stream(ctx):
 
 def seeded_flip_stream(ctx):
     """contains_seeds under flips and axis exchanges with the seed positions mapped along with the pixels (distinct
-    values): the hierarchy is the same.  Oracle only (the relabelling theorems exclude this criterion, whose meaning is
-    tied to positions)."""
+    values): the hierarchy is the same (the statement of C16_relabelled_hierarchy_with_seeds, evaluated on the
+    implementation)."""
     from astrodendro import pruning
     rng = ctx.rng('c16-seeds')
     for it in range(120 if ctx.quick else 1200):
